@@ -11,9 +11,10 @@ from .argtable import Parsers, MISSING
 PROP = "C20"
 EXPLANATION = (
     "Agreement of three tables extracted from the source. T-cli: the rows of the create sub-parser (option strings, dest, "
-    "action, nargs, default, choices). T-cfg: the mapping configuration key -> (keyword, value kind) obtained by tracing "
-    "the if/elif chain of parse_config_file for every documented key (the conditions are evaluated on the concrete key "
-    "string and on the value class true / false / other). T-kw: the parameters of MetaFile.__init__ and, from origin "
+    "action, nargs, default, choices; rows declared in a loop over a literal table are instantiated). T-cfg: the mapping configuration key -> "
+    "(keyword, value) obtained by evaluating parse_config_file for every documented key on representative values (true, false, a URL with "
+    "every character legal in one, a number followed by a note) in an environment with the module's constant tables - whichever way the parser "
+    "is written (if-chain, lookup tables, re) - the value must arrive as the flag route delivers it. T-kw: the parameters of MetaFile.__init__ and, from origin "
     "terms and control dependence, the metafile key each one feeds. C20.1: every documented option --X with dest D has "
     "T-cfg(X) = D with the same value kind; C20.2: every dest is a named parameter of MetaFile.__init__ (otherwise **_ "
     "swallows it); C20.3: parameter -> metafile field equals the documented table and no other option leaks into that "
